@@ -89,7 +89,10 @@ class TlsStateMonitor:
         ids = {}
 
         def oid(o):
-            return ids.setdefault(id(o), len(ids))
+            if id(o) not in ids:
+                ids[id(o)] = ids.get("n", 0)
+                ids["n"] = ids.get("n", 0) + 1
+            return ids[id(o)]
 
         def snap(o, isserver):
             return {"seq": getattr(o, "server_seq" if isserver else "client_seq", None),
@@ -98,6 +101,10 @@ class TlsStateMonitor:
 
         def init(self, *a, **k):
             orig_init(self, *a, **k)
+            # a new number per construction: id() values are reused once an object is freed (a later run() in the same process, a later session), and two
+            # decryptors must never be taken for one
+            ids[id(self)] = ids.get("n", 0)
+            ids["n"] = ids.get("n", 0) + 1
             ev = {"ev": "init", "o": oid(self), "version": getattr(getattr(self, "tls_version", None), "name", None),
                   "bulk": getattr(getattr(self, "bulk_alg", None), "__name__", None), "etm": getattr(self, "encrypt_then_mac", None),
                   "mac_len": getattr(self, "mac_length", None), "block": getattr(self, "block_length", None), "tag": getattr(self, "tag_length", None),
@@ -188,8 +195,11 @@ class QuicMonitor:
                 f.write(json.dumps({"ev": "monitor-unavailable", "why": repr(e)}) + "\n")
             return
         ids = {}
+        keep = []       # observed objects stay referenced: id() values are reused once an object is freed, and two sessions must never be taken for one
 
         def oid(o):
+            if id(o) not in ids:
+                keep.append(o)
             return ids.setdefault(id(o), len(ids))
 
         def pn(self, quic_packet):
